@@ -370,7 +370,9 @@ func TestC08Errors(t *testing.T) {
 		mi := methods[pick(rt, len(methods), "method")]
 		var c errCase
 		c.CorpusSeed = corpusSeed
-		c.Mount = "bare"
+		// one case in three behind two filters whose PostRequest returns nil: what resource code reported must not be
+		// replaced by what the filters report
+		c.Mount = rapid.SampledFrom([]string{"bare", "bare", "filtered"}).Draw(rt, "mount")
 		c.Config.Threshold = rapid.SampledFrom([]int{0, 1}).Draw(rt, "threshold")
 		c.Kind = kinds[pick(rt, len(kinds), "kind")]
 		c.Call = genCall(rt, g, mi)
